@@ -42,6 +42,16 @@ CHECKS = {
         "note": TRUST + " The concurrent clauses (stable key never missing under concurrent writers) are not decided by this check; SkipMap iteration is modelled as the sorted list.",
         "design": "DESIGN.md section 5 C14",
     },
+    "C02": {
+        "text": "Coq, over the abstract device + two-slot journal protocol (Model/Device.v), for every protocol history, every state and every crash image (any sub-multiset of the un-synced writes, each possibly torn): the device reopens and its contents are those of some quiescent state at or after the last acknowledgement (ack_durable); within a transaction the outcome is all-or-nothing (crash_atomic); new-record batches and retirement of superseded generations are admissible transactions. Tie: the real device history of traced workloads must be accepted by the extracted Coq monitor (journal discipline), crash images rebuilt from the trace are reopened by the real code and by the byte-level recovery model (must agree), and an oracle checks every real reopen against the per-key acknowledgement window. Found and repaired with it: F3 (split retired extent loses an acknowledged key) and F4 (unsynced initial metadata).",
+        "note": TRUST + " The abstract device treats an extent as one cell; scan alignment at block level is checked by execution only. Assumptions A1-A3 (checksum detection, sector atomicity, fsync contract) are hypotheses of the model.",
+        "design": "DESIGN.md sections 4 and 5 C02",
+    },
+    "C03": {
+        "text": "Coq: in every reachable protocol state every crash image reopens (recover never fails), no torn cell is ever seen by the scan, and the contents are exactly those before or after the transaction in flight (crash_atomic); the invariant holds along every history; admissibility of record batches and retirements. Tie as C02, with hostile values containing byte-exact markers and record heads with valid tokens; the oracle additionally requires that every exposed key carries a generation the application stored under that key and that len equals the number of exposed keys.",
+        "note": TRUST + " As C02.",
+        "design": "DESIGN.md sections 4 and 5 C03",
+    },
     "C10": {
         "text": "Codec theorems in Coq over a byte-level model written from the documented layout: little-endian round trips, CRC-32C chaining and table=bitwise definition (finite check lifted), parse.serialize round trip for v1 and v2/v3 record heads (whole extent and head block), value offset, token range/non-zero/idempotent self-verifying stamp, retirement-marker round trip and marker/record/zero disjointness. Tie on every run: (i) every pure format function vs the Coq codec through hook H3, (ii) whole files after flush() decoded by the model as an independent reader must equal the live contents with clear journal and exact counters, (iii) a golden corpus of v1/v2/v3 files from the pinned release must be decoded by the model to their manifests, be read back by the working tree, and keep their format when written to.",
         "note": TRUST + " Not proved: the whole-file bridge (decode of an encoded abstract disk) -- it is checked by execution (ii, iii).",
